@@ -361,13 +361,18 @@ class ClientWorldObjectManager:
         new_region_handle = new_properties.get("RegionHandle", obj.RegionHandle)
         old_region_state = self._get_region_state(old_region_handle)
         new_region_state = self._get_region_state(new_region_handle)
+        if old_region_state is not None and old_region_state.lookup_localid(old_local_id) is not obj:
+            # The object was moved to its region while that region was unknown, nothing tracks it yet.
+            old_region_state = None
+        changed_region = old_region_handle != new_region_handle or old_region_state is None
 
         actually_updated_props = set()
 
-        if old_region_handle != new_region_handle:
+        if changed_region:
             # The object just changed regions, we have to remove it from the old one.
             # Our LocalID will most likely change because, well, our locale changed.
-            old_region_state.untrack_object(obj)
+            if old_region_state is not None:
+                old_region_state.untrack_object(obj)
         elif old_local_id != new_local_id:
             # Our LocalID changed, and we deal with linkages to other prims by
             # LocalID association. Break any links since our LocalID is changing.
@@ -384,7 +389,7 @@ class ClientWorldObjectManager:
 
         actually_updated_props |= obj.update_properties(new_properties)
 
-        if new_region_handle != old_region_handle:
+        if changed_region:
             # Region just changed to this region, we should have untracked it before
             # so mark it tracked on this region. This should implicitly pick up any
             # orphans and handle parent ID changes.
